@@ -19,7 +19,11 @@ FLOW_CLASSES = [("session", "Session"), ("decryptor", "Decryptor"), ("output_bui
 def _is_mutable_literal(e: ast.AST) -> bool:
     if isinstance(e, (ast.List, ast.Dict, ast.Set, ast.ListComp, ast.DictComp, ast.SetComp)):
         return True
-    if isinstance(e, ast.Call) and dotted(e.func) in ("list", "dict", "set", "bytearray", "collections.defaultdict", "defaultdict", "collections.deque"):
+    if isinstance(e, ast.Call) and dotted(e.func) in ("list", "dict", "set", "bytearray", "collections.defaultdict", "defaultdict", "collections.deque", "deque",
+                                                       "collections.Counter", "Counter", "collections.OrderedDict", "OrderedDict",
+                                                       "itertools.count", "itertools.cycle", "count", "cycle", "iter"):
+        return True  # containers and stateful iterators (an iterator advanced by next() keeps its position across run() calls)
+    if isinstance(e, ast.GeneratorExp):
         return True
     return False
 
@@ -72,6 +76,8 @@ def rule_D6_reinit(tree: Tree) -> RuleResult:
                 continue
             for c in ast.walk(n.ast):
                 if isinstance(c, ast.Call) and isinstance(c.func, ast.Attribute) and dotted(c.func.value) == name and c.func.attr in MUTATORS and c.func.attr != "clear":
+                    out.append(n)
+                if isinstance(c, ast.Call) and dotted(c.func) == "next" and c.args and dotted(c.args[0]) == name:
                     out.append(n)
                 if isinstance(c, ast.Call):
                     for arg in list(c.args) + [k.value for k in c.keywords]:
